@@ -250,8 +250,20 @@ def coq_makefile():
             raise RuntimeError(r.stdout.decode())
 
 
+# C leaf functions turned into Gallina on every run (tools/c2gallina.py -> coq/gen/CGen.v); coq/Tie/Gen_*.v prove the
+# hand-written models equal to them
+CGEN_FUNCTIONS = ["constmap.c:hash:C_cm_hash", "cdb_hash.c:cdb_hash", "cdb_unpack.c:cdb_unpack", "case_diffb.c:case_diffb",
+                  "cdbmake_hash.c:cdbmake_hashadd", "cdbmake_pack.c:cdbmake_pack", "byte_chr.c:byte_chr", "byte_rchr.c:byte_rchr",
+                  "byte_copy.c:byte_copy", "byte_cr.c:byte_copyr", "byte_zero.c:byte_zero", "str_chr.c:str_chr", "str_rchr.c:str_rchr",
+                  "str_start.c:str_start", "case_lowerb.c:case_lowerb", "case_diffs.c:case_diffs", "case_starts.c:case_starts",
+                  "scan_ulong.c:scan_ulong", "scan_8long.c:scan_8long", "fmt_ulong.c:fmt_ulong", "fmt_uint.c:fmt_uint",
+                  "fmt_uint0.c:fmt_uint0", "fmt_str.c:fmt_str", "qmail-send.c:squareroot"]
+
 def gen_params(srcdir):
     r = run([sys.executable, os.path.join(VERIF, "tools", "extract_params.py"), srcdir])
+    r2 = run([sys.executable, os.path.join(VERIF, "tools", "c2gallina.py"), srcdir, os.path.join(COQ, "gen", "CGen.v")] + CGEN_FUNCTIONS)
+    if r2.returncode != 0:
+        log("c2gallina: " + r2.stdout.decode(errors="replace")[-600:])
     return r.returncode == 0
 
 
